@@ -3,12 +3,15 @@ package checks
 import (
 	"bytes"
 	"fmt"
+	"reflect"
+	"strings"
 
 	"github.com/xinchentechnote/fin-proto-go/codec"
 
 	"verif/internal/gen"
 	"verif/internal/mon"
 	"verif/internal/ref"
+	"verif/internal/schema"
 	"verif/internal/val"
 )
 
@@ -76,7 +79,7 @@ func (c *c13ctx) read(w []byte, pad byte, left bool) {
 
 func c13(e *Env) {
 	r := e.R
-	r.Rule("exhaustive small scope: width N in 0..3 × all 256 pad bytes × both pad sides × every text of length <= N+1 over the alphabet {pad, 'a', 0x00, 0xC2, 0x80} for writes and every N-byte wire string over it for reads; random: N in 0..300 ∪ {4096, 65536}, random pad byte, texts of length 0..N+8 biased to all-pad, pad at both ends, multi-byte UTF-8 cut mid-sequence; the default wrappers (space, right) and the list variants per element. distinct_nontrivial = writes where the text is neither empty nor exactly N bytes + reads where stripping removed at least one byte")
+	r.Rule("exhaustive small scope: width N in 0..3 × all 256 pad bytes × both pad sides × every text of length <= N+1 over the alphabet {pad, 'a', 0x00, 0xC2, 0x80} for writes and every N-byte wire string over it for reads; random: N in 0..300 ∪ {4096, 65536}, random pad byte, texts of length 0..N+8 biased to all-pad, pad at both ends, multi-byte UTF-8 cut mid-sequence; the default wrappers (space, right) and the list variants per element; message level: every fixed-width text field of every one of the 170 message types, read by the message's own decoder from token-level wire images (arbitrary pad placement, interior and trailing NUL/space) and written by its encoder from over-long / short / pad-terminated texts. distinct_nontrivial = writes where the text is neither empty nor exactly N bytes + reads where stripping removed at least one byte")
 	r.Explain("Oracle: an independent 10-line model — write(s,N,p,side) = s[:N] if len(s) >= N else s padded with p on the pad side; read(w,p,side) = w with leading (left) or trailing (right) bytes equal to p removed and nothing else. Checked: exactly N bytes appended (bytes before untouched), appended == model, reader returns model and consumes exactly N bytes.")
 	r.Assume("pad characters above 0xFF are outside 'pad byte' and are not generated")
 	c := &c13ctx{e: e}
@@ -109,7 +112,7 @@ func c13(e *Env) {
 	// ---- random
 	rng := gen.NewRng(e.Seed, "C13", "random")
 	g := &gen.Gen{S: e.S, C: e.C, R: rng, O: &gen.Opts{}}
-	nr := e.N(20000, 600000)
+	nr := e.N(100000, 3000000)
 	for i := 0; i < nr; i++ {
 		n := rng.Intn(301)
 		switch rng.Intn(200) {
@@ -153,7 +156,7 @@ func c13(e *Env) {
 		c.read(w, pad, left)
 	}
 	// ---- default wrappers and list variants
-	nw := e.N(3000, 60000)
+	nw := e.N(10000, 200000)
 	var wrappers int64
 	for i := 0; i < nw; i++ {
 		n := rng.Intn(40)
@@ -191,6 +194,9 @@ func c13(e *Env) {
 			r.Violate(fmt.Sprintf("C13/list-variant/pad>=0x80:%v", pad >= 0x80), "C13/list-variant", map[string]any{"width": n, "pad": fmt.Sprintf("%#02x", pad), "side": sideName(left), "elements": k, "written": val.Hex(b1.Bytes(), 64), "model": val.Hex(wantL, 64), "read": fmt.Sprint(r1), "model_read": fmt.Sprint(wantRead)})
 		}
 	}
+	if e.Only != "primitives" {
+		c13Messages(e)
+	}
 	r.Evals(c.writes + c.reads + wrappers)
 	r.DistinctAdd(c.nontriv)
 	r.Set("exhaustive_small_scope_cases", exh)
@@ -201,4 +207,121 @@ func c13(e *Env) {
 	r.Set("exhaustive_subspace", "N<=3 × 256 pads × 2 sides × all texts of length <= N+1 (writes) / == N (reads) over a 5-symbol alphabet containing the pad byte")
 	r.Sample(map[string]any{"op": "write", "width": 6, "pad": "0xff", "side": "right", "text": "6162", "model": "6162ffffffff"})
 	r.Sample(map[string]any{"op": "read", "pad": "0x80", "side": "right", "wire": "6162c280c280", "model": "6162c280c2 (only the single trailing 0x80 is pad)"})
+}
+
+// walkFix visits, guided by the pinned schema, every fixed-width text field of two messages of type t
+// (scalars, list elements, nested parts, object-list elements, union bodies of equal type).
+func walkFix(e *Env, t *schema.Type, a, b reflect.Value, path string, f func(fd *schema.Field, path, x, y string)) {
+	for i := range t.Fields {
+		fd := &t.Fields[i]
+		fa, fb := a.FieldByName(fd.Name), b.FieldByName(fd.Name)
+		p := path + "." + fd.Name
+		switch fd.Kind {
+		case "fixstr":
+			f(fd, p, fa.String(), fb.String())
+		case "list":
+			if fd.Elem.Kind == "fixstr" && fa.Len() == fb.Len() {
+				for k := 0; k < fa.Len(); k++ {
+					f(fd.Elem, fmt.Sprintf("%s[%d]", p, k), fa.Index(k).String(), fb.Index(k).String())
+				}
+			}
+		case "struct":
+			st := e.S.Lookup(t.Pkg, fd.Type)
+			if fd.Value {
+				walkFix(e, st, fa, fb, p, f)
+			} else if !fa.IsNil() && !fb.IsNil() {
+				walkFix(e, st, fa.Elem(), fb.Elem(), p, f)
+			}
+		case "objlist":
+			et := e.S.Lookup(t.Pkg, fd.Type)
+			if fa.Len() == fb.Len() {
+				for k := 0; k < fa.Len(); k++ {
+					if !fa.Index(k).IsNil() && !fb.Index(k).IsNil() {
+						walkFix(e, et, fa.Index(k).Elem(), fb.Index(k).Elem(), fmt.Sprintf("%s[%d]", p, k), f)
+					}
+				}
+			}
+		case "union":
+			if !fa.IsNil() && !fb.IsNil() && fa.Elem().Type() == fb.Elem().Type() {
+				if bt := e.C.TypeOf(fa.Interface()); bt != nil {
+					walkFix(e, bt, fa.Elem().Elem(), fb.Elem().Elem(), p, f)
+				}
+			}
+		}
+	}
+}
+
+// c13Messages applies the same model to every fixed-width text field of every message type: the
+// field as read by the message's decoder from a token-level wire image, and the N bytes emitted by
+// the message's encoder for over-long / short / pad-terminated texts.
+func c13Messages(e *Env) {
+	r := e.R
+	types := e.Types()
+	n := e.N(200, 5000)
+	acc := newFeatAcc()
+	e.Par(len(types), func(i int) {
+		t := types[i]
+		lf := map[string]int{}
+		var evals int64
+		for ci := 0; ci < n; ci++ {
+			g := e.Gen(&gen.Opts{Arbitrary: true, NoNilBody: true}, "msg", t.QName, ci)
+			// ---- read side
+			img := g.Wire(t)
+			rm, used, _, rerr := e.C.Decode(t, img, false)
+			d := e.C.New[t.QName]()
+			lerr, p := LibDecode(d, bytes.NewBuffer(append([]byte(nil), img...)))
+			if rerr == nil && lerr == nil && p == nil {
+				evals++
+				walkFix(e, t, reflect.ValueOf(rm).Elem(), reflect.ValueOf(d).Elem(), t.QName, func(fd *schema.Field, path, want, got string) {
+					lf["fields-read"]++
+					if want != got {
+						kind := "kept-pad-bytes"
+						if len(got) < len(want) {
+							kind = "stripped-non-pad-bytes"
+						}
+						r.Violate("C13/message-field-read/"+kind+"/"+t.QName, "C13/message-field-read/"+t.QName, map[string]any{"type": t.QName, "case": ci, "field": path, "width": fd.N, "pad": fmt.Sprintf("%#02x", fd.Pad), "side": sideName(fd.Left), "read": val.Hex([]byte(got), 64), "model": val.Hex([]byte(want), 64), "image": val.Hex(img[:used], 200)})
+					}
+				})
+			}
+			// ---- write side
+			v := g.Value(t)
+			rb, toks, rerr := e.C.EncodeTok(t, val.Clone(v))
+			lb, lerr, p := EncodeFresh(val.Clone(v))
+			if rerr != nil || lerr != nil || p != nil || len(rb) != len(lb) {
+				continue
+			}
+			evals++
+			for _, tk := range toks {
+				if tk.Cat != "text" || tk.W == 0 {
+					continue
+				}
+				if !bytes.Equal(lb[tk.Off:tk.Off+tk.W], rb[tk.Off:tk.Off+tk.W]) && isFixSite(e, tk.Site) {
+					r.Violate("C13/message-field-write/"+t.QName, "C13/message-field-write/"+t.QName, map[string]any{"type": t.QName, "case": ci, "field": tk.Path, "written": val.Hex(lb[tk.Off:tk.Off+tk.W], 64), "model": val.Hex(rb[tk.Off:tk.Off+tk.W], 64), "value": val.Summary(v, 300)})
+					break
+				}
+				lf["fields-written"]++
+			}
+		}
+		r.Evals(evals)
+		acc.merge(lf)
+	})
+	r.DistinctAdd(int64(acc.m["fields-read"] / 4)) // conservative: wire generator places pad/NUL patterns in 5 of 8 text tokens
+	r.Set("message_level_fixed_text_fields", acc.m)
+}
+
+func isFixSite(e *Env, site string) bool {
+	i := strings.LastIndex(site, ".")
+	if i < 0 {
+		return false
+	}
+	t := e.S.Types[site[:i]]
+	if t == nil {
+		return false
+	}
+	for _, f := range t.Fields {
+		if f.Name == site[i+1:] {
+			return f.Kind == "fixstr" || (f.Kind == "list" && f.Elem.Kind == "fixstr")
+		}
+	}
+	return false
 }
